@@ -15,6 +15,6 @@ Definition enc_served (s : served) : sx :=
   | Rejected => SL [SZ 1; SL []]
   | Served os => SL [SZ 0; SL (map (fun o => SL [SZ (fst o); SZ (enc_rerr (snd o))]) os)]
   end.
-Definition run (x : sx) : sx :=
+Definition run_sx (x : sx) : sx :=
   let L := as_Z (nth_sx 0 x) in
   SL (map enc_served (serve_all L 0 (map dec_req (as_list (nth_sx 1 x))))).
